@@ -263,6 +263,7 @@ var checks = []Check{
 		Jobs: []Job{
 			{Pkg: "proc/redis", Scenarios: []string{"C12/slots"}, Shards: 1, QuickS: 120, ThoroughS: 240},
 			{Pkg: "proc/redis", Scenarios: []string{"C12/concurrent"}, Shards: 4, QuickS: 60, ThoroughS: 240},
+			{Pkg: "proc/redis", Scenarios: []string{"C12/redirect-learning"}, Shards: 4, QuickS: 60, ThoroughS: 240},
 		},
 	},
 	{
